@@ -189,6 +189,7 @@ fn main() {
                     postr: vec![true],
                     postc: vec![false],
                     rt: true,
+                    pt: [managed::Tmo::None; 3],
                 };
                 let w = managed::World::new(cfg);
                 tokio::time::sleep(std::time::Duration::from_millis(150)).await;
